@@ -21,6 +21,7 @@ or executed.  Small pure integer helpers (weekday arithmetic, interval overlap) 
                   collapse_overlapping is (max start, min end)
   C15.remove      inner_collapse removes exactly the two collapsed elements
   C15.carry       carry thresholds on hour / minute / second are the field maxima
+  C15.dictkeys    no dict literal of the package repeats a constant key (Python keeps the last entry silently)
 """
 import ast
 import builtins
